@@ -671,6 +671,12 @@ fn ip4(r: &mut Rng) -> IpAddr {
 }
 
 fn ip6(r: &mut Rng) -> IpAddr {
+    if r.chance(1, 6) {
+        // an IPv4-mapped IPv6 address is still an IPv6 address: it must be used as such, never
+        // "canonicalised" into the other family (seeded change C18-7)
+        let v4 = Ipv4Addr::new(10, r.below(250) as u8, r.below(250) as u8, 1 + r.below(250) as u8);
+        return IpAddr::V6(v4.to_ipv6_mapped());
+    }
     IpAddr::V6(Ipv6Addr::new(0xfd00, r.below(60000) as u16, 0, 0, 0, 0, 0, 1 + r.below(60000) as u16))
 }
 
